@@ -10,11 +10,12 @@ COMBOS = [(1, 3), (1, 4), (2, 3), (2, 4)]
 
 
 def build():
-    from ampform.dynamics import PhaseSpaceFactor
-
+    from tools.corr import C09_occ
     from tools.corr.C09_defs import Builder
 
-    b = Builder(PhaseSpaceFactor)
+    # marker phase-space implementation + checked L / d, as in tools/props/C09.py build(): a formulate()
+    # that does not forward an argument is untranslatable
+    b = Builder(C09_occ.marker_phsp(), check_markers=True)
     b.parametrisations_kmatrix(combos=COMBOS)
     b.formulated_kmatrix(combos=COMBOS)
     return b.out, {}, {}
